@@ -20,6 +20,7 @@ def run(rep, tier, seed, budget):
     total = budget or (95 if quick else 1800)
     t_end = time.time() + total
     lemmas.state_lemmas(ctx, rep, equalities=True)
+    lemmas.crosshair_state_lemmas(ctx, rep)
     lemmas.index_read_lemma(ctx, rep)
     lemmas.ring_order_step(ctx, rep)
 
